@@ -6,6 +6,8 @@ pub mod error;
 pub mod js_bindings;
 pub mod output;
 mod step;
+#[cfg(feature = "verif_hooks")]
+pub mod verif_hooks;
 
 use output::StyleSheetOutput;
 use step::{StepParser, StepToken};
